@@ -57,6 +57,7 @@ class Oracle(object):
         self.real_monitor = _Mon.collate_actor_dataframes is _sut._REAL_COLLATE
         self.parts = (sc.get('alg_params') or {}).get('max_resource_partitions')
         self.resv_set = {}
+        self.over_threshold = False
 
     # ----------------------------------------------------------------- utils
     def viol(self, prop, clause, msg, site=''):
@@ -472,6 +473,8 @@ class Oracle(object):
         b = sim.buffer
         h, cd = b.hot[0], b.cold[0]
         hfree, cfree = h.current_capacity, cd.current_capacity
+        if h.total_capacity and (h.total_capacity - hfree) / h.total_capacity > 0.6:
+            self.over_threshold = True      # the tiering region (and with it the known cold-parking finding) was entered
         if hfree < -EPS:
             self.viol('C07', 'hot_free_negative', hfree)
         if hfree > h.total_capacity + EPS:
@@ -671,7 +674,8 @@ class Oracle(object):
             # known C05 finding) is excluded by state, everything else is a C04 failure.
             b = self.sim.buffer
             from .scenario import feasible as _feasible
-            if _feasible(self.sc) and not b.cold[0].observations['stored'] and b.cold[0].observations['transfer'] is None:
+            if _feasible(self.sc) and (not self.over_threshold or (
+                    not b.cold[0].observations['stored'] and b.cold[0].observations['transfer'] is None)):
                 miss = []
                 for n in self.obsnames:
                     if self.ob[n]['at_spawn']:
@@ -686,7 +690,8 @@ class Oracle(object):
             # excluded by state exactly as above)
             b = self.sim.buffer
             from .scenario import feasible as _feasible
-            if _feasible(self.sc) and not b.cold[0].observations['stored'] and b.cold[0].observations['transfer'] is None:
+            if _feasible(self.sc) and (not self.over_threshold or (
+                    not b.cold[0].observations['stored'] and b.cold[0].observations['transfer'] is None)):
                 never = [n for n in self.obsnames if not self.ob[n]['start']]
                 miss = []
                 for n in self.obsnames:
@@ -739,6 +744,10 @@ class Oracle(object):
                          or sim.cluster._resources['idle'] or sim.cluster._resources['ingest']
                          or sim.cluster._resources['occupied'] or self.inflight)
             sig += '/quiet' if quiet else '/busy'
+            if 'cold_stored' in where and not self.over_threshold:
+                # parked in cold storage although the hot buffer never went over its tiering threshold: not the
+                # known finding
+                sig += '/never_over_threshold'
             res.stuck = dict(where=where, queue=len(sim.scheduler.observation_queue),
                              running=len(sim.cluster._tasks['running']),
                              idle=sorted(sim.cluster._resources['idle']),
